@@ -344,6 +344,83 @@ func completionCases(c *ctx, size int) {
 			moves = append(moves, tak.Move{X: int8(nx), Y: int8(ny), Type: d.t, Slides: tak.MkSlides(1)})
 		}
 	}
+	// ... and the road completed by FLATTENING: the gap holds a wall (the mover's own or the opponent's) and a neighbouring
+	// square holds the mover's capstone on top of own flats (possibly carrying more); the capstone moves onto the wall.  The
+	// colour bitboards of the mover do not change when it flattens its own wall.
+	type pm struct {
+		p *tak.Position
+		m tak.Move
+	}
+	var flat []pm
+	for _, d := range []struct {
+		dx, dy int
+		t      tak.MoveType
+	}{{-1, 0, tak.SlideRight}, {1, 0, tak.SlideLeft}, {0, -1, tak.SlideUp}, {0, 1, tak.SlideDown}} {
+		nx, ny := xy[0]+d.dx, xy[1]+d.dy
+		if nx < 0 || ny < 0 || nx >= size || ny >= size || r.Intn(2) == 0 {
+			continue
+		}
+		b2 := boardOf(full)
+		wallCol := col
+		if r.Intn(3) == 0 {
+			wallCol = col.Flip()
+		}
+		b2[xy[1]][xy[0]] = tak.Square{tak.MakePiece(wallCol, tak.Standing)}
+		under := 1 + r.Intn(3)
+		st := tak.Square{tak.MakePiece(col, tak.Capstone)}
+		for k := 0; k < under; k++ {
+			st = append(st, tak.MakePiece(col, tak.Flat))
+		}
+		b2[ny][nx] = st
+		// two squares further back: the capstone arrives from a distance, dropping stones on own flats on the way
+		cfg2 := tak.Config{Size: size, BlackWinsTies: r.Intn(3) == 0}
+		fitReserves(r, &cfg2, b2)
+		cfg2.Pieces += 3
+		if cfg2.Pieces > 250 {
+			cfg2.Pieces = 250
+		}
+		cfg2.Capstones++
+		p2, err := tak.FromSquares(cfg2, b2, ply)
+		if err != nil {
+			continue
+		}
+		flat = append(flat, pm{p2, tak.Move{X: int8(nx), Y: int8(ny), Type: d.t, Slides: tak.MkSlides(1)}})
+	}
+	for _, f := range flat {
+		// reach the position through Move as well (a quiet placement by each side first), so that the analysis the
+		// flattening move starts from is itself an incrementally maintained one
+		start := f.p
+		if empties := emptySquares(start); len(empties) >= 2 && r.Intn(2) == 0 {
+			e1, e2 := empties[r.Intn(len(empties))], empties[r.Intn(len(empties))]
+			if e1 != e2 {
+				if s1, err := start.Move(tak.Move{X: int8(e1[0]), Y: int8(e1[1]), Type: tak.PlaceStanding}); err == nil {
+					if s2, err := s1.Move(tak.Move{X: int8(e2[0]), Y: int8(e2[1]), Type: tak.PlaceStanding}); err == nil {
+						if over, _ := s2.GameOver(); !over {
+							start = s2
+						}
+					}
+				}
+			}
+		}
+		q, err := start.Move(f.m)
+		if err != nil {
+			continue
+		}
+		emitC02(c, q, "completed-by-flattening")
+		cur := q
+		for k := 0; k < 2; k++ {
+			legal := legalMoves(cur)
+			if len(legal) == 0 {
+				break
+			}
+			n, err := cur.Move(legal[r.Intn(len(legal))])
+			if err != nil {
+				break
+			}
+			cur = n
+			emitC02(c, cur, "after-completion")
+		}
+	}
 	for _, m := range moves {
 		q, err := p0.Move(m)
 		if err != nil {
@@ -539,4 +616,17 @@ func runC02(c *ctx) {
 		p, _, _ := constructedBoard(r, size, 3, 1.0)
 		emitC02(c, p, "full")
 	}
+}
+
+// emptySquares lists the empty squares of a position as (x, y)
+func emptySquares(p *tak.Position) [][2]int {
+	var out [][2]int
+	for y := 0; y < p.Size(); y++ {
+		for x := 0; x < p.Size(); x++ {
+			if len(p.At(x, y)) == 0 {
+				out = append(out, [2]int{x, y})
+			}
+		}
+	}
+	return out
 }
